@@ -99,7 +99,7 @@ def operations(doc: dict) -> list[dict]:
                         break
                 if schema is None:
                     src = "none"
-                responses.append({"status": status, "media_type": mt_sel, "schema": schema, "source": src})
+                responses.append({"status": status, "media_type": mt_sel, "schema": schema, "source": src, "noise": bool((resp or {}).get("x-verif-noise"))})
             ops.append({
                 "path": path, "method": m, "operationId": op.get("operationId"), "tags": op.get("tags") or [],
                 "params": params, "bodies": bodies, "responses": responses, "security": bool(op.get("security")),
